@@ -16,6 +16,7 @@ import (
 	"encoding/binary"
 	"fmt"
 	"math/rand"
+	"os"
 	"strings"
 	"sync"
 	"time"
@@ -1508,10 +1509,16 @@ func c13interleaved(rng *hx.Rng, nsteps int) *c13world {
 func runC13(res *hx.Result, rng *hx.Rng, tier string, outdir string) {
 	res.Rule = "schedules of subscribe / cancel / emit by up to 9 subscribers on 3 connections x 3 signals (one a property), " +
 		"executed label by label through harness-owned streams; non-trivial = at least 2 emissions with a change of the " +
-		"subscriber set between them; distinct by sha256 of the label sequence"
+		"subscriber set between them; distinct by sha256 of the label sequence; client side: sequences of subscribe / cancel / " +
+		"emit / one receive attempt of one subscriber by up to 6 subscribers of 3 signals on one client whose readers read only " +
+		"when the sequence says so; non-trivial = at least 2 subscribers and 2 emissions"
 	nSeq, nInter := 200, 150
 	if tier == "thorough" {
 		nSeq, nInter = 3000, 5000
+	}
+	if strings.HasPrefix(os.Getenv("QV_C13_FWD"), "only:") { // campaign of the client-side family alone (c13fwd.go)
+		c13runFwd(res, rng, tier, outdir)
+		return
 	}
 	// defect switches: replay of the C13_refuted_* witnesses on the implementation
 	w17, on17 := c13sched17()
@@ -1632,4 +1639,6 @@ func runC13(res *hx.Result, rng *hx.Rng, tier string, outdir string) {
 	cf.Flush()
 	// registrations with caller-chosen ids (c13raw.go)
 	c13runRaw(res, rng, tier, outdir, cfg)
+	// the client side with readers that the harness controls (c13fwd.go)
+	c13runFwd(res, rng, tier, outdir)
 }
